@@ -2,6 +2,7 @@
 from __future__ import annotations
 
 import json
+import time
 from typing import Dict, List, Optional
 
 from harness.lib.core import VERIF, Ctx, lean_lock, run_driver, shrink_ops
@@ -136,6 +137,45 @@ def _sig_of_diff(res: dict, model: List[str], j: int) -> dict:
     return {"kind": "model-vs-impl", "where": "answer", "op": line.split()[0]}
 
 
+class _ShrinkGov:
+    """Bounds the shrinker's work when MANY traces disagree at once (a change that breaks install / uninstall makes nearly every
+    trace of a family disagree): per family and preliminary signature (read off the UNSHRUNK first difference) only the first
+    disagreeing trace is shrunk, the second is reported as it is (the whole trace is a concrete replay), further ones are counted
+    (`<family>:disagree-not-reported:…` in the histogram; the obligation of the family still states how many traces disagree).
+    The shrinker itself is time-boxed per trace and in total: after the deadline every candidate is rejected, so `shrink_ops`
+    returns the smallest failing trace found so far.  Nothing is compared less: every trace is still run and diffed."""
+
+    def __init__(self):
+        self.reset(False)
+
+    def reset(self, thorough: bool):
+        self.seen: Dict[str, int] = {}
+        self.spent = 0.0
+        self.total = 240.0 if thorough else 40.0      # seconds of shrinking per run
+        self.per_trace = 30.0 if thorough else 8.0    # seconds of shrinking per trace
+
+    def admit(self, family: str, sig: dict) -> str:
+        key = family + ":" + json.dumps(sig, sort_keys=True)
+        self.seen[key] = self.seen.get(key, 0) + 1
+        if self.seen[key] == 1:
+            return "shrink" if self.spent < self.total else "report"
+        return "report" if self.seen[key] == 2 else "count"
+
+    def shrink(self, ops, fails, budget: int):
+        t0 = time.monotonic()
+        deadline = t0 + min(self.per_trace, max(self.total - self.spent, 0.0))
+
+        def boxed(cand):
+            return time.monotonic() < deadline and fails(cand)
+        try:
+            return shrink_ops(ops, boxed, budget=budget)
+        finally:
+            self.spent += time.monotonic() - t0
+
+
+GOV = _ShrinkGov()
+
+
 def _check_case(ctx: Ctx, name: str, case: dict, res: dict, model: List[str], guards: Dict[str, bool]):
     ctx.cov["traces_validated_against_impl"] += 1
     j = _diff(res, model)
@@ -191,10 +231,16 @@ def _check_case(ctx: Ctx, name: str, case: dict, res: dict, model: List[str], gu
         except Exception:  # noqa
             return False
         return jj >= 0
-    small = dict(case, ops=shrink_ops(case["ops"], fails, budget=120))
-    res2, model2, j2 = _run_one(small, guards)
-    if j2 < 0:
-        small, res2, model2, j2 = case, res, model, j
+    mode = GOV.admit("svc", _sig_of_diff(res, model, j))
+    if mode == "count":
+        ctx.count("svc:disagree-not-reported:" + _sig_of_diff(res, model, j)["op"])
+        return False
+    small, res2, model2, j2 = case, res, model, j
+    if mode == "shrink":
+        small = dict(case, ops=GOV.shrink(case["ops"], fails, budget=120))
+        res2, model2, j2 = _run_one(small, guards)
+        if j2 < 0:
+            small, res2, model2, j2 = case, res, model, j
     line = res2["lines"][j2] if j2 < len(res2["lines"]) else "?"
     prev = res2["lines"][j2 - 1] if j2 > 0 else "?"
     ctx.violation(_sig_of_diff(res2, model2, j2),
@@ -252,12 +298,20 @@ def _check_world_case(ctx: Ctx, name: str, case: dict, res: dict, model: List[st
             return _diff(r2, run_driver(EXE_W, r2["lines"])) >= 0
         except Exception:  # noqa
             return False
-    small = dict(case, ops=shrink_ops(case["ops"], fails, budget=80))
-    res2 = wrig.run_world_case(small, guards)
-    model2 = run_driver(EXE_W, res2["lines"])
-    j2 = _diff(res2, model2)
-    if j2 < 0:
-        small, res2, model2, j2 = case, res, model, j
+    pre = res["lines"][j].split() if j < len(res["lines"]) else ["?"]
+    presig = {"line": pre[1] if pre[0] in ("A", "B") and len(pre) > 1 else pre[0], "dump": pre[-1] == "dump"}
+    mode = GOV.admit("world", presig)
+    if mode == "count":
+        ctx.count("world:disagree-not-reported:" + presig["line"])
+        return False
+    small, res2, model2, j2 = case, res, model, j
+    if mode == "shrink":
+        small = dict(case, ops=GOV.shrink(case["ops"], fails, budget=80))
+        res2 = wrig.run_world_case(small, guards)
+        model2 = run_driver(EXE_W, res2["lines"])
+        j2 = _diff(res2, model2)
+        if j2 < 0:
+            small, res2, model2, j2 = case, res, model, j
     line = res2["lines"][j2] if j2 < len(res2["lines"]) else "?"
     w = line.split()
     dumpline = line.endswith("dump")
@@ -330,8 +384,16 @@ def _check_load_case(ctx: Ctx, name: str, case: dict, res: dict, model: List[str
     if j < 0:
         return True
     n_init = next((k for k, l in enumerate(res["lines"]) if l == "dump"), 0)
+    pl = res["lines"][j] if j < len(res["lines"]) else "?"
+    presig = {"line": pl.split()[0], "prev": (res["lines"][j - 1].split()[0] if j > 0 else "?")}
+    mode = GOV.admit("load", presig)
+    if mode == "count":
+        ctx.count("load:disagree-not-reported:" + presig["prev"] + "/" + presig["line"])
+        return False
     if j <= n_init:
         small = dict(case, ops=[])
+    elif mode != "shrink":
+        small = case
     else:
         def fails(ops, case=case):
             c = dict(case, ops=ops)
@@ -340,7 +402,7 @@ def _check_load_case(ctx: Ctx, name: str, case: dict, res: dict, model: List[str
                 return _diff(r2, run_driver(EXE, r2["lines"])) >= 0
             except Exception:  # noqa
                 return False
-        small = dict(case, ops=shrink_ops(case["ops"], fails, budget=60))
+        small = dict(case, ops=GOV.shrink(case["ops"], fails, budget=60))
     res2 = lrig.run_load_case(small, guards)
     model2 = run_driver(EXE, res2["lines"])
     j2 = _diff(res2, model2)
@@ -418,6 +480,7 @@ def run(ctx: Ctx):
         ctx.extract("SoftwareRegs", x_regs.emit)
         ctx.prove(MODULES, exes=[EXE, EXE_W], clean=False, leanchecker=ctx.thorough)
     guards = _guards()
+    GOV.reset(ctx.thorough)
     ctx.cov["rule"] = ("cases = (node power and durations, operation sequence over install/uninstall (API and request) of every shipped "
                        "class, the 10 service / 4 application requests, direct method calls, duration writes, ticks, power API and "
                        "requests, payload deliveries and frames); after every operation the answer and the whole registry/lifecycle "
